@@ -72,3 +72,12 @@ package extractor
 //@   property C10
 //@   opaque
 //@   sweep idx slice div assert
+
+// every other function of the package (helpers added later included)
+//@ sweepall C10 idx slice div assert
+
+// The comparison function handed to sort.Slice is only called with indexes valid for the slice
+// (sort's contract); it is not swept.
+//@ func sortURLs$1
+//@   opaque
+//@   modifies nothing
